@@ -66,12 +66,12 @@ TEXT = {
                  "lexer.go; kernel-decided instantiations on tables regenerated from the source on every run (token.Keywords = the 96 reserved words; each "
                  "char.IsX body = the specified class on all 256 bytes); the Go lexer's token stream (kinds, extents, decoded values, base, accept/reject) is "
                  "compared with the reference on exhaustive short strings, a literal generator (prefix x quote form x escape x position), number forms, corpus "
-                 "and random inputs; any disagreement is reported with the input as replay. The refinement theorem model-refines-spec is in progress; until it "
-                 "is listed the level is proof of the instantiations + translation validation against the reference.",
+                 "and random inputs; any disagreement is reported with the input as replay. Lean theorems step_refines / lexAll_refines: for EVERY byte string and every "
+                 "lexer state the model of lexer.go and the reference agree on accept/reject, kinds, extents, decoded values, base and dot-identifier mode.",
         "design_ref": "DESIGN.md §4 C14",
         "note": "Trusted: the reference lexer is the meaning of 'GoogleSQL lexical structure' here (decisions P1-P4 documented in its header); Lean kernel; "
                 "translator for keywords.go / char/is.go.",
-        "technique": "reference lexer in Lean + kernel-decided table instantiations + differential comparison (SPEC channel)",
+        "technique": "Lean 4 proof of refinement (model of lexer.go refines an independent reference lexer) + kernel-decided table instantiations + differential comparison (LEX, SPEC channels)",
     },
     "C19": {
         "level": "Tables regenerated from the source on every run; kernel-decided: for all 264 node types the body of Pos()/End() in ast/pos.go is exactly the "
@@ -83,5 +83,88 @@ TEXT = {
         "design_ref": "DESIGN.md §4 C19",
         "note": "Trusted: tools/extract (syntactic reader; unrecognised shapes become explicit failing rows), Lean kernel, transcription of poslang/pos_util.",
         "technique": "translator-regenerated tables + kernel evaluation (decide +kernel) + Lean proof of emitter correctness + translation validation",
+    },
+    "C17": {
+        "level": "Lean 4 theorems for every tree, every visitor (as a pure state machine) and the walk table regenerated from walk_internal.go: the explicit-stack "
+                 "traversal of ast/walk.go produces exactly the recursively specified event sequence (Visit, then the Field calls of all node-typed fields, then "
+                 "the children in declaration order; slices via VisitMany and Index) with the fuel of the model proved sufficient for the real table; every node "
+                 "is visited once in pre-order; a pruned node contributes exactly one event; Preorder makes no yield call after the first false. Kernel-decided: "
+                 "the table equals the node-typed fields of ast.go in reverse declaration order. TREE channel: Go's event list vs the model's on every explored tree; "
+                 "predicate: Go's Walk/Inspect/Preorder vs reflection.",
+        "design_ref": "DESIGN.md §4 C17",
+        "note": "Trusted: Lean kernel + standard axioms; Walk model and regenerated table validated by the TREE channel on explored trees.",
+        "technique": "Lean 4 proof (stack machine refines recursive specification) + kernel-decided table instantiation + correspondence",
+    },
+    "C04": {
+        "level": "Partial. Lean theorems over the regenerated tables: Pos() and End() never panic on any tree shaped like the catalogue of ast.go (all 264 kinds, every "
+                 "optional child present or absent) — the table well-formedness is re-decided by the kernel on every run — and agree with the documented expressions; "
+                 "Walk terminates with the specified events. SQL() totality and the link 'the parser returns only catalogue-shaped trees' are not proved: SQL(), Pos(), "
+                 "End(), Walk, Inspect, Preorder are executed under recover on every node of every tree returned for the corpus, probes, mutations and expression soups.",
+        "design_ref": "DESIGN.md §4 C04",
+        "note": "Trusted: translator + interpreters (TREE channel); SQL()/parser link by exploration only.",
+        "technique": "Lean 4 proof over regenerated tables (decide +kernel instantiation) + execution of all four operations on every node of explored trees",
+    },
+    "C10": {
+        "level": "Partial. Lean theorems for every byte string: the recovery-mode lexer that the four handlers drive always returns a token, each token is an exact "
+                 "slice of the input consecutive to the previous one, and it advances. The handlers' own bookkeeping (NodePos, NodeEnd, Tokens, the >> split) and the "
+                 "agreement of the two lexer modes are checked on the implementation: every BadNode of every explored tree is compared with the recovery-mode "
+                 "re-lexing of input[NodePos:NodeEnd] and its SQL() is re-lexed.",
+        "design_ref": "DESIGN.md §4 C10",
+        "note": "Trusted: lexer model (LEX channel, both modes); handler part by exploration.",
+        "technique": "Lean 4 proof (recovery lexer totality and frame) + predicate on the implementation",
+    },
+    "C01": {
+        "level": "Exploration: for every error-free parse of the corpus, probes, mutations and expression soups, SQL() re-parses with the same entry point to a tree equal up to position values and is a fixed point. Two recorded known findings (join method, empty PRIMARY KEY) are recognised by call site.",
+        "design_ref": "DESIGN.md §4 C01",
+        "note": "No Lean theorem is claimed for this property yet; the claimed level is exploration of the real entry points. Known findings are listed in known-findings.txt.",
+        "technique": "property predicate evaluated on the implementation (corpus, probes, token-level mutations, expression soups); Lean obligations pending",
+    },
+    "C02": {
+        "level": "Exploration: significant-token sequence of the input (from the lexer, which C13/C14 cover by proof) vs that of SQL() modulo the documented canonicalisations, for every error-free parse of the explored inputs.",
+        "design_ref": "DESIGN.md §4 C02",
+        "note": "No Lean theorem is claimed for this property yet; the claimed level is exploration of the real entry points. Known findings are listed in known-findings.txt.",
+        "technique": "property predicate evaluated on the implementation (corpus, probes, token-level mutations, expression soups); Lean obligations pending",
+    },
+    "C05": {
+        "level": "Exploration: range, token alignment (with the >> split), nesting and sibling order of every node of every returned tree; Lean theorems about Pos()/End() as functions of the tree exist (C04/C19) but the parser-side alignment is not proved.",
+        "design_ref": "DESIGN.md §4 C05",
+        "note": "No Lean theorem is claimed for this property yet; the claimed level is exploration of the real entry points. Known findings are listed in known-findings.txt.",
+        "technique": "property predicate evaluated on the implementation (corpus, probes, token-level mutations, expression soups); Lean obligations pending",
+    },
+    "C06": {
+        "level": "Exploration: slice-and-reparse and splice-and-reparse for every node of accepted corpus/probe/mutated inputs.",
+        "design_ref": "DESIGN.md §4 C06",
+        "note": "No Lean theorem is claimed for this property yet; the claimed level is exploration of the real entry points. Known findings are listed in known-findings.txt.",
+        "technique": "property predicate evaluated on the implementation (corpus, probes, token-level mutations, expression soups); Lean obligations pending",
+    },
+    "C08": {
+        "level": "Exploration: every golden input not marked !bad_ (the maintainers' rendering of each documented production) and its keyword/pseudo-keyword re-casings through the specific entry point and ParseStatement (equal trees), and ';'-joined lists through the list entry points. A documentation-template-driven generator is planned.",
+        "design_ref": "DESIGN.md §4 C08",
+        "note": "No Lean theorem is claimed for this property yet; the claimed level is exploration of the real entry points. Known findings are listed in known-findings.txt.",
+        "technique": "property predicate evaluated on the implementation (corpus, probes, token-level mutations, expression soups); Lean obligations pending",
+    },
+    "C09": {
+        "level": "Exploration: the error contract on every explored call (nil error <=> clean and fully consumed, Bad* => error, MultiError length, ranges).",
+        "design_ref": "DESIGN.md §4 C09",
+        "note": "No Lean theorem is claimed for this property yet; the claimed level is exploration of the real entry points. Known findings are listed in known-findings.txt.",
+        "technique": "property predicate evaluated on the implementation (corpus, probes, token-level mutations, expression soups); Lean obligations pending",
+    },
+    "C11": {
+        "level": "Exploration: ParseStatements/DDLs/DMLs vs SplitRawStatements + single-statement entry point on ';'-joined lists with random trivia, empty statements and end-of-input-sensitive members. The splitter side is proved (C12).",
+        "design_ref": "DESIGN.md §4 C11",
+        "note": "No Lean theorem is claimed for this property yet; the claimed level is exploration of the real entry points. Known findings are listed in known-findings.txt.",
+        "technique": "property predicate evaluated on the implementation (corpus, probes, token-level mutations, expression soups); Lean obligations pending",
+    },
+    "C16": {
+        "level": "Exploration: each accepted input is re-spelled from its token stream (new trivia, random keyword and identifier case) and must parse to the same tree. The lexer-side trivia lemma is pending.",
+        "design_ref": "DESIGN.md §4 C16",
+        "note": "No Lean theorem is claimed for this property yet; the claimed level is exploration of the real entry points. Known findings are listed in known-findings.txt.",
+        "technique": "property predicate evaluated on the implementation (corpus, probes, token-level mutations, expression soups); Lean obligations pending",
+    },
+    "C18": {
+        "level": "Exploration: repeated, reordered and 16-way concurrent calls give identical trees, SQL and error texts; returned trees are not mutated by later parses. Ownership facts from the translator and the -race build are pending.",
+        "design_ref": "DESIGN.md §4 C18",
+        "note": "No Lean theorem is claimed for this property yet; the claimed level is exploration of the real entry points. Known findings are listed in known-findings.txt.",
+        "technique": "property predicate evaluated on the implementation (corpus, probes, token-level mutations, expression soups); Lean obligations pending",
     },
 }
